@@ -407,6 +407,11 @@ func (c *Cluster) do(s Step, out *Outcome) {
 		if err != nil {
 			panic("snapshot failed: " + err.Error())
 		}
+		if s.Flag && c.SnapBytes != nil {
+			// operator restore: an OLDER snapshot (taken by an earlier leader.snapshot step) replaces the state
+			b = c.SnapBytes
+			c.Run.Hit("probe.install-older-snapshot")
+		}
 		if err := c.L.Restore(b); err != nil {
 			panic("restore of own snapshot failed: " + err.Error())
 		}
